@@ -252,6 +252,7 @@ class Worker:
         self.key = None
         self.pending = False
         self.prev_op = None
+        self.serialised = False
         self.thread = threading.Thread(target=self._main, name=f"simw-{idx}", daemon=True)
         self.thread.start()
 
@@ -347,7 +348,7 @@ class Sim:
         self.stats = dict(
             gets=0, nested_gets=0, tasks=0, events=0, switches=0, max_inflight=0,
             lock_blocks=0, cache_clears=0, cache_clears_inflight=0, dup_exec=0,
-            cache_get_overlap=0, resumes=0, hot_events=0,
+            cache_get_overlap=0, resumes=0, hot_events=0, serialised_tasks=0,
         )
         self.sites = set()
         self.dup_mismatch = None
@@ -539,12 +540,22 @@ class Sim:
                     node = dsk[k]
                     w.ghost_of = None
                     self.stats["tasks"] += 1
+                    # F10: the task crosses a process boundary (as under dask's "processes" / distributed schedulers):
+                    # function, arguments and (below) the result go through a cloudpickle round trip
+                    w.serialised = self._fault_ser(gno, order[k])
+                    if w.serialised:
+                        try:
+                            node, data = _roundtrip((node, data))
+                        except BaseException as e:  # noqa
+                            self._drain()
+                            raise RuntimeError(f"task cannot be sent to another process: {type(e).__name__}: {e}") from e
                     # F7: schedule a duplicate execution of this task
                     if self._fault_dup(gno, order[k]):
                         ghosts.append((k, node, data))
                 else:
                     k, node, data = ghosts.pop(k)
                     w.ghost_of = k
+                    w.serialised = False
                     self.stats["dup_exec"] += 1
                 w.job = (k, node, data)
                 w.key = k
@@ -580,6 +591,12 @@ class Sim:
                 if not ok:
                     self._drain()
                     raise val
+                if getattr(w, "serialised", False) and not is_ghost:
+                    try:
+                        val = _roundtrip(val)
+                    except BaseException as e:  # noqa
+                        self._drain()
+                        raise RuntimeError(f"task result cannot be sent back from another process: {type(e).__name__}: {e}") from e
                 if is_ghost:
                     ghost_results[k] = val
                     if k in cache:
@@ -664,6 +681,23 @@ class Sim:
             if fe["kind"] == "F7":
                 self.rec_faults.append(dict(fe))
                 self._ev("F7", gno, tord)
+                return True
+        return False
+
+    def _fault_ser(self, gno, tord):
+        if self.mode == "prng":
+            p = self.faults.get("F10", 0.0)
+            if p and self.rng.random() < p:
+                self.rec_faults.append({"kind": "F10", "get": gno, "task": tord})
+                self.stats["serialised_tasks"] += 1
+                self._ev("F10", gno, tord)
+                return True
+            return False
+        for fe in self.script_faults.get((gno, tord), ()):
+            if fe["kind"] == "F10":
+                self.rec_faults.append(dict(fe))
+                self.stats["serialised_tasks"] += 1
+                self._ev("F10", gno, tord)
                 return True
         return False
 
@@ -815,6 +849,12 @@ class Sim:
             "interleaving": self.sched_log.hexdigest()[:16],
             "task_order": self.order_log.hexdigest()[:16],
         }
+
+
+def _roundtrip(obj):
+    import cloudpickle
+
+    return cloudpickle.loads(cloudpickle.dumps(obj))
 
 
 def _nested_get(ind, coll):
